@@ -226,6 +226,10 @@ func init() {
 					cs = append(cs, fw.Case{ID: fmt.Sprintf("fold/%d", i), Kind: "fold", P: map[string]any{"i": i}})
 					cs = append(cs, fw.Case{ID: fmt.Sprintf("final/%d", i), Kind: "final", P: map[string]any{"i": i}})
 				}
+				cs = append(cs, fw.Case{ID: "compiled/r1cs", Kind: "compiled", P: map[string]any{"sys": "r1cs"}})
+				if !ctx.Quick {
+					cs = append(cs, fw.Case{ID: "compiled/scs", Kind: "compiled", P: map[string]any{"sys": "scs"}})
+				}
 				type shape struct{ d, rate, steps int }
 				shapes := []shape{{5, 3, 1}, {6, 2, 1}, {9, 3, 2}, {7, 1, 1}}
 				if !ctx.Quick {
@@ -407,6 +411,91 @@ func init() {
 						}
 						o.Inc("folds_compared")
 					}
+				case "compiled":
+					// the FRI sub-gadgets on a really compiled system, all inputs circuit variables:
+					// domain point from index bits, coset fold at beta, final polynomial (7 and 1 coefficients)
+					sys := c.Str("sys")
+					const nLog = 10
+					fn := func(api frontend.API, in []frontend.Variable) []frontend.Variable {
+						chip, _ := friChipFor(api, ref.FriParams{DegreeBits: 5, CapHeight: 4})
+						for _, b := range in[:nLog] {
+							api.AssertIsBoolean(b)
+						}
+						for _, b := range in[nLog+1 : nLog+5] {
+							api.AssertIsBoolean(b)
+						}
+						qe := func(i int) gl.QuadraticExtensionVariable {
+							return gl.QuadraticExtensionVariable{gl.NewVariable(in[i]), gl.NewVariable(in[i+1])}
+						}
+						sx := chip.VerifCalculateSubgroupX(append([]frontend.Variable(nil), in[:nLog]...), nLog)
+						pos := nLog + 5
+						evals := make([]gl.QuadraticExtensionVariable, 16)
+						for i := range evals {
+							evals[i] = qe(pos)
+							pos += 2
+						}
+						beta := qe(pos)
+						pos += 2
+						fold := chip.VerifComputeEvaluation(gl.NewVariable(in[nLog]), append([]frontend.Variable(nil), in[nLog+1:nLog+5]...), 4, evals, beta)
+						c7 := make([]gl.QuadraticExtensionVariable, 7)
+						for i := range c7 {
+							c7[i] = qe(pos)
+							pos += 2
+						}
+						c1 := []gl.QuadraticExtensionVariable{qe(pos)}
+						pos += 2
+						pt := qe(pos)
+						f7 := chip.VerifFinalPolyEval(variables.PolynomialCoeffs{Coeffs: c7}, pt)
+						f1 := chip.VerifFinalPolyEval(variables.PolynomialCoeffs{Coeffs: c1}, pt)
+						return []frontend.Variable{sx.Limb, fold[0].Limb, fold[1].Limb, f7[0].Limb, f7[1].Limb, f1[0].Limb, f1[1].Limb}
+					}
+					var ios []compiledIO
+					n := 4
+					if !ctx.Quick {
+						n = 24
+					}
+					for len(ios) < n {
+						idx := uint64(r.Intn(1 << nLog))
+						x := randGL(r)
+						if x == 0 {
+							x = 1
+						}
+						within := uint64(r.Intn(16))
+						evals := make([]ref.E, 16)
+						for i := range evals {
+							evals[i] = c15RandE(r)
+						}
+						beta := ref.E{randGL(r), 1 + randGL(r)%(P-1)} // off the base field: never a coset point
+						coeffs := make([]ref.E, 8)
+						for i := range coeffs {
+							coeffs[i] = c15RandE(r)
+						}
+						pt := c15RandE(r)
+						var in []*big.Int
+						for i := 0; i < nLog; i++ {
+							in = append(in, bu((idx>>uint(i))&1))
+						}
+						in = append(in, bu(x))
+						for i := 0; i < 4; i++ {
+							in = append(in, bu((within>>uint(i))&1))
+						}
+						for _, e := range evals {
+							in = append(in, bu(e[0]), bu(e[1]))
+						}
+						in = append(in, bu(beta[0]), bu(beta[1]))
+						for _, e := range coeffs {
+							in = append(in, bu(e[0]), bu(e[1]))
+						}
+						in = append(in, bu(pt[0]), bu(pt[1]))
+						fold := ref.ComputeEvaluation(x, within, 4, evals, beta)
+						f7 := ref.PolyEval(coeffs[:7], pt)
+						f1 := ref.PolyEval(coeffs[7:], pt)
+						ios = append(ios, compiledIO{In: in, Out: []*big.Int{bu(ref.SubgroupX(idx, nLog)), bu(fold[0]), bu(fold[1]), bu(f7[0]), bu(f7[1]), bu(f1[0]), bu(f1[1])}})
+					}
+					if v, bad := compiledAgree(&o, sys, "fri_subgadgets", fn, nLog+5+32+2+16+2, 7, ios); bad {
+						return v
+					}
+					o.Sample = map[string]any{"system": sys}
 				case "final":
 					n := r.Intn(20)
 					coeffs := make([]ref.E, n)
